@@ -3,6 +3,7 @@
 From Coq Require Import PeanoNat.
 From RV Require Import Base.Prelude Base.Cursor Name.NameModel Wire.WireTypes Wire.WireModel
      Wire.WireDecodeProofs Zone.ZoneModel Resolver.LocalModel Server.ServerModel Server.ServerSpec.
+From RV Require Wire.WireGrammar Wire.WireEncodeProofs.
 
 (* ------------------------------------------------------------------ *)
 (* small facts                                                         *)
@@ -611,6 +612,187 @@ Section Tcp.
   Qed.
 End Tcp.
 
+
+(* ------------------------------------------------------------------ *)
+(* a reply that cannot be serialised: its SERVFAIL stand-in always can  *)
+(* (commit 35946be), so every reply message reaches the wire            *)
+(* ------------------------------------------------------------------ *)
+
+Lemma fallback_shape r : servfail_of r (unserialisable_fallback r).
+Proof. unfold servfail_of, unserialisable_fallback. cbn. auto 20. Qed.
+
+Lemma servfail_of_unique r f : servfail_of r f -> f = unserialisable_fallback r.
+Proof.
+  intros (H1 & H2 & H3 & H4 & H5 & H6 & H7 & H8 & H9 & H10 & H11 & H12).
+  destruct f as [[fid fqr fop faa ftc frd fra frc] fq fa fau fad]. cbn in *. subst.
+  reflexivity.
+Qed.
+
+(* all the stand-in needs of the reply it replaces: a 16-bit id, a 4-bit opcode and a question
+   section that fits the wire format *)
+Definition fallback_ok (r : message) : Prop :=
+  h_id (m_header r) < 65536 /\ h_opcode (m_header r) < 16
+  /\ Forall WireGrammar.wf_question (m_questions r) /\ llen (m_questions r) < 65536.
+
+Lemma fallback_wf r : fallback_ok r -> WireGrammar.wf_message (unserialisable_fallback r).
+Proof.
+  intros (Hid & Hop & Hq & _). unfold WireGrammar.wf_message, WireGrammar.wf_header, unserialisable_fallback. cbn.
+  repeat split; try assumption; try constructor; try (unfold RCODE_ServerFailure; lia).
+Qed.
+
+Theorem fallback_encodes r : fallback_ok r -> exists bs, encode (unserialisable_fallback r) = Ok bs.
+Proof.
+  intros H. apply WireEncodeProofs.encode_succeeds; [apply fallback_wf; exact H|].
+  destruct H as (_ & _ & _ & Hn). unfold WireEncodeProofs.encodable, unserialisable_fallback. cbn.
+  repeat split; try exact Hn; try constructor.
+Qed.
+
+(* ... and what is sent decodes to exactly that message *)
+Theorem fallback_roundtrip r bs : fallback_ok r -> encode (unserialisable_fallback r) = Ok bs ->
+  bytes_ok bs /\ decode bs = Ok (unserialisable_fallback r).
+Proof.
+  intros H E. pose proof (fallback_wf r H) as Hwf.
+  assert (Hb : bytes_ok bs) by (eapply WireEncodeProofs.encode_bytes; eauto).
+  split; [exact Hb|]. apply decode_complete; [exact Hb|]. eapply WireEncodeProofs.encode_parses; eauto.
+Qed.
+
+Lemma wire_id_lt bs id : bytes_ok bs -> wire_id bs = Some id -> id < 65536.
+Proof.
+  intros Hb H. destruct bs as [|a [|b t]]; try discriminate. cbn [wire_id] in H. injection H as <-.
+  unfold bytes_ok in Hb. inversion Hb as [|? ? Ha Hb1]; subst. inversion Hb1 as [|? ? Hb2 _]; subst. cbv beta in *. lia.
+Qed.
+
+(* whatever decodes has a question section that can be written again *)
+Lemma decoded_fallback_ok bs m : bytes_ok bs -> decode bs = Ok m -> fallback_ok m.
+Proof.
+  intros Hb Hd.
+  pose proof (decode_wf bs m Hb Hd) as ((Hid & Hop & _) & Hq & _).
+  pose proof (WireEncodeProofs.parses_encodable bs m Hb (decode_sound bs m Hb Hd)) as (Hn & _).
+  unfold fallback_ok. auto.
+Qed.
+
+Lemma formerr_fallback_ok id : id < 65536 -> fallback_ok (make_format_error_response id).
+Proof.
+  intro H. unfold fallback_ok. cbn. repeat split; try assumption; try constructor;
+    try (unfold OPCODE_Standard; lia).
+Qed.
+
+Section Served.
+  Variable authoritative_only : bool.
+  Variable resolve : bool -> question -> res rerror resolved.
+  Hypothesis resolve_returns : forall r q, resolve r q <> Panic /\ resolve r q <> OutOfFuel.
+
+  Notation handle := (handle_raw_message authoritative_only resolve).
+
+  (* every reply handle_raw_message builds has a stand-in that serialises *)
+  Lemma handle_fallback_ok bs r : bytes_ok bs -> handle bs = Ok (Some r) -> fallback_ok r.
+  Proof.
+    intros Hb H. unfold handle_raw_message in H.
+    destruct (decode bs) as [m|e| |] eqn:E; try discriminate.
+    - pose proof (decoded_fallback_ok bs m Hb E) as (Hid & Hop & Hq & Hn).
+      destruct (h_qr (m_header m)); [discriminate|].
+      destruct (h_opcode (m_header m) =? OPCODE_Standard).
+      + destruct (rabr_shape authoritative_only resolve resolve_returns m)
+          as (r' & Hr & (Ei & _ & Eo & _ & _ & Eq & _) & _).
+        rewrite Hr in H. cbn [bind] in H. injection H as <-.
+        unfold fallback_ok. rewrite Ei, Eo, Eq. auto.
+      + injection H as <-. unfold fallback_ok. cbn. auto.
+    - pose proof (decode_err_first _ _ E) as Ee. rewrite <- wire_id_first in Ee. rewrite Ee in H.
+      destruct (wire_id bs) as [id|] eqn:Ew; cbn [option_map] in H; [|discriminate].
+      injection H as <-. apply formerr_fallback_ok. eapply wire_id_lt; eauto.
+  Qed.
+
+  Lemma tcp_reply_fallback_ok stream e r :
+    bytes_ok stream -> tcp_reply_message authoritative_only resolve stream e = Ok (Some r) -> fallback_ok r.
+  Proof.
+    intros Hb H. unfold tcp_reply_message, read_tcp_bytes in H.
+    destruct stream as [|hi [|lo rest]]; try (destruct e; discriminate).
+    assert (Hr : bytes_ok rest).
+    { unfold bytes_ok in *. inversion Hb as [|? ? _ H1]; subst. inversion H1; subst. assumption. }
+    cbv zeta in H.
+    destruct (u16_be hi lo <=? llen rest).
+    - apply (handle_fallback_ok _ r (bytes_ok_firstn _ _ Hr) H).
+    - rewrite id_of_prefix_wire_id in H.
+      destruct e; cbn [tcp_error_id] in H; try discriminate;
+        (destruct (wire_id rest) as [id|] eqn:Ew; cbn [option_map] in H; [|discriminate];
+         injection H as <-; apply formerr_fallback_ok; eapply wire_id_lt; eauto).
+  Qed.
+
+  (* the framing step never drops a reply: it sends the reply or, if that cannot be
+     serialised, its SERVFAIL stand-in *)
+  Lemma frame_with_sends (send : list byte -> res unit (list byte)) r :
+    (forall bs, 12 <= llen bs -> exists out, send bs = Ok out) -> fallback_ok r ->
+    exists sent wire out,
+      sent_for r sent /\ encode sent = Ok wire /\ send wire = Ok out
+      /\ frame_with send (Some r) = Ok (Some out).
+  Proof.
+    intros Hsend Hok. cbn [frame_with].
+    destruct (encode_fine r) as [Hp Hf].
+    destruct (encode r) as [bs|e| |] eqn:E; try congruence.
+    - destruct (Hsend bs (encode_at_least_12 _ _ E)) as (out & Ho).
+      exists r, bs, out. rewrite Ho. cbn [bind].
+      split; [left; split; [eauto|reflexivity]|]. auto.
+    - destruct (fallback_encodes r Hok) as (bs & Eb). rewrite Eb.
+      destruct (Hsend bs (encode_at_least_12 _ _ Eb)) as (out & Ho).
+      exists (unserialisable_fallback r), bs, out. rewrite Ho. cbn [bind].
+      split; [right; split; [eauto|apply fallback_shape]|]. auto.
+  Qed.
+
+  Lemma send_udp_total bs : 12 <= llen bs -> exists out, send_udp_bytes_to bs = Ok out.
+  Proof.
+    intro H. unfold send_udp_bytes_to, MIN_MESSAGE. rewrite (proj2 (N.ltb_ge _ _) H).
+    destruct (UDP_MAX <? llen bs); eauto.
+  Qed.
+
+  Lemma send_tcp_total bs : 12 <= llen bs -> exists out, send_tcp_bytes bs = Ok out.
+  Proof.
+    intro H. unfold send_tcp_bytes, MIN_MESSAGE. rewrite (proj2 (N.ltb_ge _ _) H).
+    destruct (llen bs <? 65536); eauto.
+  Qed.
+
+  (* ---- udp_served_or_silence: reply_or_silence at the level of datagrams.  No premise about
+     `to_octets`: a datagram that is not silent input gets exactly one datagram back, carrying
+     the reply handle_raw_message built or its SERVFAIL stand-in ---- *)
+  Theorem udp_served_or_silence datagram :
+    bytes_ok datagram ->
+    let bs := firstn (N.to_nat 512) datagram in
+    (silent_input bs /\ serve_udp authoritative_only resolve datagram = Ok None)
+    \/ (~ silent_input bs
+        /\ exists r sent wire out,
+             handle bs = Ok (Some r)
+             /\ h_qr (m_header r) = true /\ wire_id bs = Some (h_id (m_header r))
+             /\ sent_for r sent /\ encode sent = Ok wire /\ send_udp_bytes_to wire = Ok out
+             /\ serve_udp authoritative_only resolve datagram = Ok (Some out)).
+  Proof.
+    intros Hb bs. assert (Hbs : bytes_ok bs) by (apply bytes_ok_firstn; exact Hb).
+    unfold serve_udp, udp_reply_message. change (N.to_nat UDP_MAX) with (N.to_nat 512). fold bs.
+    destruct (reply_or_silence authoritative_only resolve resolve_returns bs Hbs)
+      as [[Hs Hn]|(Hs & r & Hr & Hq & Hi)].
+    - left. rewrite Hn. split; [exact Hs|reflexivity].
+    - right. split; [exact Hs|]. rewrite Hr. cbn [bind].
+      destruct (frame_with_sends send_udp_bytes_to r send_udp_total (handle_fallback_ok bs r Hbs Hr))
+        as (sent & wire & out & H1 & H2 & H3 & H4).
+      exists r, sent, wire, out. auto 10.
+  Qed.
+
+  (* ---- tcp_served: the same for one connection, in terms of the reply message
+     tcp_reply_message determines (tcp_short_read / reply_or_silence say which) ---- *)
+  Theorem tcp_served stream e :
+    bytes_ok stream ->
+    (tcp_reply_message authoritative_only resolve stream e = Ok None ->
+     serve_tcp authoritative_only resolve stream e = Ok None)
+    /\ (forall r, tcp_reply_message authoritative_only resolve stream e = Ok (Some r) ->
+          exists sent wire out,
+            sent_for r sent /\ encode sent = Ok wire /\ send_tcp_bytes wire = Ok out
+            /\ serve_tcp authoritative_only resolve stream e = Ok (Some out)).
+  Proof.
+    intros Hb. unfold serve_tcp. split.
+    - intros ->. reflexivity.
+    - intros r Hr. rewrite Hr. cbn [bind].
+      apply (frame_with_sends send_tcp_bytes r send_tcp_total (tcp_reply_fallback_ok stream e r Hb Hr)).
+  Qed.
+End Served.
+
 (* ------------------------------------------------------------------ *)
 (* the answer section: on the CNAME chain, except for the known referral *)
 (* ------------------------------------------------------------------ *)
@@ -758,8 +940,8 @@ Proof.
     end.
 Qed.
 
-(* ---- the premise `encode reply = Ok _` of the framing theorems can fail: RDATA of 65536 octets
-   or more makes to_octets refuse the record ... ---- *)
+(* ---- `to_octets` can fail on a reply: RDATA of 65536 octets or more makes it refuse the
+   record ... ---- *)
 Lemma encode_rr_too_large r b os :
   rr_data r = RD_Octets os -> 65536 <= llen os -> exists e, encode_rr r b = Err e.
 Proof.
@@ -790,35 +972,54 @@ Proof.
     rewrite Nat2N.inj_succ, N.pow_succ_r'. lia.
 Qed.
 
-(* ... the reply to `big.example.com TXT` is built, carries such a record, and is dropped by both
-   listen loops (known finding) *)
-Theorem unserialisable_reply_witness :
-  exists zs cget bs r e,
+(* ... the reply to `big.example.com TXT` (id 7) is built, carries such a record and cannot be
+   serialised; both listen loops answer with its SERVFAIL stand-in -- id 7, QR set, the question
+   echoed, no records -- framed as usual (before 35946be they sent nothing: the former finding
+   unserialisable-reply-silence) *)
+Theorem unserialisable_reply_servfail_witness :
+  exists zs cget bs q r e f wire,
     handle_raw_message true (fun _ => resolve_authoritative_only zs cget) bs = Ok (Some r)
     /\ encode r = Err e
-    /\ serve_udp true (fun _ => resolve_authoritative_only zs cget) bs = Ok None
-    /\ serve_tcp true (fun _ => resolve_authoritative_only zs cget) (u16_bytes (llen bs) ++ bs) EndEof = Ok None.
+    /\ servfail_of r f /\ encode f = Ok wire /\ decode wire = Ok f
+    /\ wire_id bs = Some 7 /\ h_id (m_header f) = 7 /\ h_qr (m_header f) = true
+    /\ h_rcode (m_header f) = RCODE_ServerFailure /\ h_aa (m_header f) = false
+    /\ m_questions f = [q] /\ m_answers f = [] /\ m_authority f = [] /\ m_additional f = []
+    /\ serve_udp true (fun _ => resolve_authoritative_only zs cget) bs = Ok (Some wire)
+    /\ serve_tcp true (fun _ => resolve_authoritative_only zs cget) (u16_bytes (llen bs) ++ bs) EndEof
+       = Ok (Some (u16_bytes (llen wire) ++ wire)).
 Proof.
   set (os := Witness.doubled 16 [120]).
   assert (Hos : 65536 <= llen os).
   { unfold os. rewrite llen_doubled. change (llen [120]) with 1. change (N.of_nat 16) with 16. vm_compute. discriminate. }
   clearbody os.
-  exists (Witness.zs_big os), Witness.cget, Witness.big_query.
+  exists (Witness.zs_big os), Witness.cget, Witness.big_query, (Witness.question_for Witness.big_example_com RT_TXT).
   assert (Hh : exists r, handle_raw_message true (fun _ => resolve_authoritative_only (Witness.zs_big os) Witness.cget)
                            Witness.big_query = Ok (Some r)
-                         /\ exists a rest, m_answers r = a :: rest /\ rr_data a = RD_Octets os).
-  { eexists. split; [vm_compute; reflexivity|]. cbn [m_answers]. do 2 eexists. split; reflexivity. }
-  destruct Hh as (r & Hr & a & rest & Ha & Hd).
+                         /\ (exists a rest, m_answers r = a :: rest /\ rr_data a = RD_Octets os)
+                         /\ exists wire, encode (unserialisable_fallback r) = Ok wire
+                              /\ decode wire = Ok (unserialisable_fallback r)
+                              /\ h_id (m_header (unserialisable_fallback r)) = 7
+                              /\ h_qr (m_header (unserialisable_fallback r)) = true
+                              /\ m_questions (unserialisable_fallback r) = [Witness.question_for Witness.big_example_com RT_TXT]
+                              /\ send_udp_bytes_to wire = Ok wire
+                              /\ send_tcp_bytes wire = Ok (u16_bytes (llen wire) ++ wire)).
+  { eexists. split; [vm_compute; reflexivity|]. split; [cbn [m_answers]; do 2 eexists; split; reflexivity|].
+    eexists. split; [vm_compute; reflexivity|]. repeat split; vm_compute; reflexivity. }
+  destruct Hh as (r & Hr & (a & rest & Ha & Hd) & wire & Ew & Dw & Hid & Hqr & Hqs & Su & St).
   destruct (encode_too_large r a rest os Ha Hd Hos) as (e & He).
-  exists r, e. split; [exact Hr|]. split; [exact He|].
+  exists r, e, (unserialisable_fallback r), wire.
+  split; [exact Hr|]. split; [exact He|]. split; [apply fallback_shape|]. split; [exact Ew|]. split; [exact Dw|].
+  split; [vm_compute; reflexivity|]. split; [exact Hid|]. split; [exact Hqr|].
+  split; [reflexivity|]. split; [reflexivity|]. split; [exact Hqs|].
+  split; [reflexivity|]. split; [reflexivity|]. split; [reflexivity|].
   split.
   - unfold serve_udp, udp_reply_message.
     replace (firstn (N.to_nat UDP_MAX) Witness.big_query) with Witness.big_query by (vm_compute; reflexivity).
-    rewrite Hr. cbn [bind frame_with]. rewrite He. reflexivity.
+    rewrite Hr. cbn [bind frame_with]. rewrite He, Ew, Su. reflexivity.
   - unfold serve_tcp, tcp_reply_message.
     replace (read_tcp_bytes (u16_bytes (llen Witness.big_query) ++ Witness.big_query) EndEof)
       with (ReadOk Witness.big_query) by (vm_compute; reflexivity).
-    rewrite Hr. cbn [bind frame_with]. rewrite He. reflexivity.
+    rewrite Hr. cbn [bind frame_with]. rewrite He, Ew, St. reflexivity.
 Qed.
 
 (* ------------------------------------------------------------------ *)
